@@ -94,6 +94,50 @@ def run(ctx, replay_case):
                                    "what": f"stream decode differs from the messages decoded one by one (at line {k})",
                                    "replay": {**c.replay("S"), "expected": e, "observed": g,
                                               "messages": [(p[0], p[1], p[2], p[3].hex()) for p in c.meta["parts"]]}})
+    # the same pairing in warn mode, on streams that end in a way the byte pump has to get right (seed C09e): the empty stream, and
+    # streams whose LAST message declares k bytes more than its layout needs, followed by k zero bytes — in warn mode the padding is
+    # skipped with a warning, so the stream ends on a byte that produces no event of its own.  Expected: the concatenation of the
+    # messages decoded one by one in the same mode, and a clean end.
+    wcases = [ds.Case("Stream", None, False, b"", "stream_empty", None, {"parts": []})]
+    okstreams = [c for c in cases if c.kind == "stream_ok" and c.meta["parts"]]
+    for c in (okstreams if ctx.tier != "quick" else okstreams[:120]):
+        parts = list(c.meta["parts"])
+        t, cc, enc, b, v = parts[-1]
+        k = rnd.choice([1, 2, 2, 3, 7])
+        parts[-1] = (t, cc, enc, b[:2] + (len(b) + k).to_bytes(4, "big") + b[6:] + bytes(k), None)
+        wcases.append(ds.Case("Stream", None, False, b"".join(p[3] for p in parts), "stream_padded_last", None, {"parts": parts}))
+        if rnd.random() < 0.3:
+            wcases.append(ds.Case("Stream", None, False, c.data, "stream_ok_warn", None, {"parts": list(c.meta["parts"])}))
+    wres = {m: core.run_impl([c.op(m) for c in wcases if m == "W" or c.kind == "stream_empty"]) for m in "SW"}
+    wsingles, windex = [], []
+    for wi, c in enumerate(wcases):
+        for j, (t, cc, enc, b, v) in enumerate(c.meta["parts"]):
+            wsingles.append(ds.Case(t, cc, enc, b, "single"))
+            windex.append(wi)
+    wsres = core.run_impl([x.op("W") for x in wsingles])
+    wexp = collections.defaultdict(list)
+    wend = {}
+    for wi, b in zip(windex, wsres):
+        if wi in wend:
+            continue                      # a message decoded on its own did not complete: the stream stops there, the same way
+        wexp[wi] += [ds.strip_pulls(l) for l in ds.events_of(b)]
+        if not b[-1].startswith("R done"):
+            wend[wi] = b[-1].split(" cc=")[0] if b[-1].startswith("R depleted") else b[-1]
+    nwbad = 0
+    for mode, blocks in wres.items():
+        these = [(wi, c) for wi, c in enumerate(wcases) if mode == "W" or c.kind == "stream_empty"]
+        for (wi, c), sb in zip(these, blocks):
+            got = [ds.strip_pulls(l) for l in ds.events_of(sb)]
+            want_r = wend.get(wi, "R done obj=None")
+            got_r = sb[-1].split(" cc=")[0] if sb[-1].startswith("R depleted") else sb[-1]
+            if got != wexp[wi] or got_r != want_r:
+                nwbad += 1
+                if nwbad <= 3:
+                    k, e, g = __import__("suites").first_diff(wexp[wi] + [want_r], got + [got_r])
+                    ctx.violations.append({"kind": "concrete", "signature": f"stream:{c.kind}",
+                                           "what": f"{'warn' if mode == 'W' else 'strict'}-mode decode of a stream ({c.kind}) differs from its messages decoded one by one (at line {k})",
+                                           "replay": {**c.replay(mode), "expected": e, "observed": g,
+                                                      "messages": [(p[0], p[1], p[2], p[3].hex()) for p in c.meta["parts"]]}})
     # the hypothesis of the stream theorem (`specStream … = some _`) holds of the well-formed streams: the Lean specification, given
     # the exchanges the model splits the stream into, dictates exactly the stream's bytes and as many events as the implementation emits
     okc = [c for c in cases if c.kind == "stream_ok"]
@@ -156,7 +200,7 @@ def run(ctx, replay_case):
         "samples": [{"messages": len(c.meta["parts"]), "hex": c.data.hex()[:120]} for c in cases[:: max(1, len(cases) // 5)]][:5],
         "correspondence": {"ops": len(cases) + len(eops), "stream_spec_ops": len(okc), "events_to_objs_ops": len(eops), "stream_spec_rejections_or_mismatches": nspec},
         "distribution": {"kinds": ds.kinds_distribution(cases), "messages_per_stream": {str(k): v for k, v in sorted(lens.items())},
-                         "stream_failures": nbad, "object_failures": nobj, "events_to_objs_results": dict(e2os_kinds),
+                         "stream_failures": nbad, "warn_mode_end_cases": ds.kinds_distribution(wcases), "warn_mode_end_failures": nwbad, "object_failures": nobj, "events_to_objs_results": dict(e2os_kinds),
                          "outcomes": dict(collections.Counter(ds.outcome(b) for b in simpl))},
     })
 
